@@ -40,6 +40,36 @@ def candidates(lines):
     return c
 
 
+def candidates_box(lines):
+    """corruptions of a recorded boxcar::Vec run (BoxcarConform.tla)"""
+    c = []
+    for k, l in enumerate(lines):
+        e = json.loads(l)
+        site = e['site']
+        if site == 'atomic' and e.get('loc') == 'active' and e.get('op') == 'load':
+            c.append((k, 'flip the value returned by a load of an active flag', ('val', 1 - e['val'])))
+        if site == 'atomic' and e.get('loc') == 'bucket' and e.get('op') == 'load':
+            c.append((k, 'flip null / non-null of a loaded bucket pointer', ('val', 1 - e['val'])))
+        if site == 'atomic' and e.get('loc') == 'bucket' and e.get('op') == 'cas':
+            c.append((k, 'flip the outcome of a bucket compare_exchange', ('ok', not e['ok'])))
+        if site == 'atomic' and e.get('loc') == 'inflight':
+            c.append((k, 'change the value returned by inflight.%s' % e['op'], ('val', e['val'] + 1)))
+        if site == 'atomic' and e.get('op') in ('load', 'store', 'fetch_add') and e.get('loc') in ('active', 'bucket', 'inflight'):
+            c.append((k, 'change the declared ordering of %s.%s' % (e['loc'], e['op']), ('ord', 'rlx' if e['ord'] != 'rlx' else 'acq')))
+        if site == 'ret' and e.get('api') == 'push':
+            c.append((k, 'change the index returned by push', ('idx', e['idx'] + 1)))
+        if site == 'ret' and e.get('api') == 'count':
+            c.append((k, 'change the value returned by count', ('res', e['res'] + 1)))
+        if site == 'ret' and e.get('api') == 'get' and e['res'].get('some'):
+            r = dict(e['res']); r['v'] = r['v'] + 1
+            c.append((k, 'change the value returned by get', ('res', r)))
+        if site in ('entry.write', 'entry.read') and e.get('i', -1) >= 0:
+            c.append((k, 'change the entry of %s' % site, ('i', e['i'] + 1)))
+        if site in ('entry.write', 'bucket.alloc') and e['role'] != 'main' or (site == 'atomic' and e.get('op') in ('store', 'fetch_add', 'cas')):
+            c.append((k, 'remove the %s line of %s' % (site + ('/' + e.get('loc', '') if site == 'atomic' else ''), e['role']), None))
+    return c
+
+
 def split_runs(path):
     runs, cur = [], []
     for l in open(path):
@@ -51,17 +81,17 @@ def split_runs(path):
     return runs
 
 
-def demo(files, n, wd, rng_seed=1):
+def demo(files, n, wd, rng_seed=1, spec='NucleoConform.tla', cand=None):
     random.seed(rng_seed)
     os.makedirs(wd, exist_ok=True)
     runs = []
     for f in files:
         runs += split_runs(f)
-    runs = [r for r in runs if 60 < len(r) < 1500 and not any('"site":"abort"' in l for l in r)]
+    runs = [r for r in runs if 30 < len(r) < 1500 and not any('"site":"abort"' in l or '"api":"snapshot"' in l or '"api":"extend_panic"' in l for l in r)]
     jobs, meta = [], []
     for t in range(n):
         r = random.choice(runs)
-        c = candidates(r)
+        c = (cand or candidates)(r)
         if not c:
             continue
         k, what, mut = random.choice(c)
@@ -72,7 +102,7 @@ def demo(files, n, wd, rng_seed=1):
             e = json.loads(out[k]); e[mut[0]] = mut[1]; out[k] = json.dumps(e) + '\n'
         p = os.path.join(wd, 'corrupt-%03d.ndjson' % t)
         open(p, 'w').writelines(out)
-        jobs.append(dict(spec='NucleoConform.tla', env={'TRACE': p}, workers=1, timeout=600, xmx='2g'))
+        jobs.append(dict(spec=spec, env={'TRACE': p}, workers=1, timeout=600, xmx='2g'))
         meta.append((p, what, json.loads(r[0]).get('scenario'), k))
     res = tlc_many(jobs)
     rejected, missed = 0, []
@@ -88,7 +118,9 @@ def demo(files, n, wd, rng_seed=1):
 
 
 if __name__ == '__main__':
-    n, rej, missed = demo(sys.argv[1:2], int(sys.argv[2]) if len(sys.argv) > 2 else 32, os.path.join(WORK, 'conform-mutate'))
+    box = 'box' in sys.argv[1]
+    n, rej, missed = demo(sys.argv[1:2], int(sys.argv[2]) if len(sys.argv) > 2 else 32, os.path.join(WORK, 'conform-mutate'),
+                          spec='BoxcarConform.tla' if box else 'NucleoConform.tla', cand=candidates_box if box else None)
     print('corruptions tried %d, rejected %d' % (n, rej))
     for m in missed:
         print('NOT REJECTED:', m)
